@@ -163,6 +163,7 @@ SMT_FAIL = (
     'recommendation not met',
     'unreachable',
     'cannot show invariant holds',
+    'unable to prove',
     'cannot show',
     'failed',
 )
